@@ -511,7 +511,7 @@ impl Prop for C02 {
                         };
                         if !accepted && x.choices().iter().all(|c| *c == 0) {
                             // the default state of a per-game case must be one the module accepts, or the case explores nothing
-                            ctx.violation("MACHINERY:vacuous-wrapper-case", &[], format!("{}: the default server state reports app id {} which the module rejects", case.label, exp_valve.info.appid), "", "", vec![]);
+                            ctx.violation("wrapper-rejects-its-own-default-server", &[], format!("{}: the default server state reports app id {} which the module rejects", case.label, exp_valve.info.appid), "", "", vec![]);
                         }
                         if !accepted {
                             if !matches!(x.outcome.err_kind(), Some(gamedig::GDErrorKind::BadGame)) {
